@@ -503,7 +503,7 @@ def unit_stack(prop):
 
 UNITS = {
     "C15": [unit_deltas("C15"), unit_stack("C15"), unit_deltas_init("C15"), _lazy("contracts.accessors", "unit_ctors", "C15")],
-    "C07": [unit_supports("C07", "tri"), unit_supports("C07", "fbank"), _lazy("contracts.filters_gabor", "unit_gamma_support", "C07"), _lazy("contracts.filters_gamma", "unit_gamma_loop", "C07"),
+    "C07": [unit_supports("C07", "tri"), unit_supports("C07", "fbank"), _lazy("contracts.filters_gabor", "unit_gamma_support", "C07"), _lazy("contracts.filters_gamma", "unit_gamma_loop", "C07"), _lazy("contracts.filters_gabor", "unit_gamma_impulse_length", "C07"),
             _lazy("contracts.purity", "unit_purity", "C07"), _lazy("contracts.accessors", "unit_accessors", "C07")],
     "C03": [unit_si("C03", w) for w in ("chunk", "handle_skip", "preamble", "finalize", "full", "geometry", "supports")] + [_lazy("contracts.si_stream", "unit_filters", "C03")] + [unit_si_frame("C03", w) for w in ("fill", "frame", "dft", "idft")] + [_lazy("contracts.accessors", "unit_accessors", "C03")],
     "C13": [_lazy("contracts.shorten", "unit_bit_reader", "C13"), _lazy("contracts.shorten_block", "unit_block", "C13"),
